@@ -25,6 +25,7 @@ func main() {
 	update := flag.Bool("update-ledger", false, "rewrite the ledger for this property from the current run")
 	verbose := flag.Bool("v", false, "verbose")
 	only := flag.String("func", "", "only this function (debug)")
+	cover := flag.Bool("cover", false, "vacuity diagnosis: instead of deciding the obligations, ask for every obligation whether the program point it is stated at is reachable under the assumptions in force there; prints the unreachable ones (no evidence, no ledger)")
 	timeout := flag.Int("timeout", 0, "per-obligation solver timeout in seconds (default 30 quick / 60 thorough)")
 	flag.Parse()
 	if *prop == "" {
@@ -63,8 +64,12 @@ func main() {
 		}
 	}
 	vc.CurProp = *prop
+	coverMode = *cover
 	r := &vc.Run{Prop: *prop, Tier: *tier, Repo: *repo, Verif: *verif, Seed: seed, Timeout: to, Verbose: *verbose, OnlyFunc: *only, UpdateLedger: *update}
 	code := run(r)
+	if coverMode {
+		os.Exit(code)
+	}
 	r.WallS = time.Since(t0).Seconds()
 	if err := r.WriteEvidence(); err != nil {
 		fmt.Fprintln(os.Stderr, "evidence:", err)
@@ -74,6 +79,8 @@ func main() {
 	}
 	os.Exit(code)
 }
+
+var coverMode bool
 
 var rePropTag = regexp.MustCompile(`\bC[0-9]{2}\b`)
 
@@ -169,6 +176,13 @@ func run(r *vc.Run) int {
 	for _, o := range p.StaticObligations(r.Prop) {
 		r.Static = append(r.Static, o)
 	}
+	if coverMode {
+		return runCover(jobsToCover(func(yield func(*vc.Obligation, *vc.FuncResult)) {
+			for _, j := range jobs {
+				yield(j.o, j.fr)
+			}
+		}), outDir)
+	}
 	need2 := r.Tier == "thorough"
 	sem := make(chan struct{}, 6)
 	var wg sync.WaitGroup
@@ -207,3 +221,61 @@ func hasProp(ps []string, p string) bool {
 func shortPkg(p string) string { return strings.TrimPrefix(p, vc.ModPath+"/internal/") }
 
 var _ = json.Marshal
+
+
+type coverJob struct {
+	o    *vc.Obligation
+	fr   *vc.FuncResult
+	from []string
+}
+
+// jobsToCover turns every (path condition, claim) pair of every obligation into the question "is this
+// path condition satisfiable under the assumptions in force": the claim is replaced by false.
+func jobsToCover(each func(func(*vc.Obligation, *vc.FuncResult))) []*coverJob {
+	var out []*coverJob
+	seen := map[string]*coverJob{}
+	each(func(o *vc.Obligation, fr *vc.FuncResult) {
+		if o.Static {
+			return
+		}
+		for i, g := range o.Goals {
+			key := fmt.Sprintf("%p|%s", fr, g.Reach)
+			if cj, ok := seen[key]; ok {
+				cj.from = append(cj.from, fmt.Sprintf("%s[%d]", o.ID, i))
+				if o.Mark > cj.o.Mark {
+					cj.o.Mark = o.Mark // every assumption made anywhere after the point counts too
+				}
+				continue
+			}
+			co := &vc.Obligation{ID: fmt.Sprintf("%s~cover%d", o.ID, i), Kind: "cover", Func: o.Func, Pkg: o.Pkg, Mark: o.Mark, Goals: []vc.Goal{{Reach: g.Reach, Cond: "false"}}}
+			cj := &coverJob{o: co, fr: fr, from: []string{fmt.Sprintf("%s[%d]", o.ID, i)}}
+			seen[key] = cj
+			out = append(out, cj)
+		}
+	})
+	return out
+}
+
+func runCover(jobs []*coverJob, outDir string) int {
+	sem := make(chan struct{}, 8)
+	var wg sync.WaitGroup
+	for _, j := range jobs {
+		wg.Add(1)
+		sem <- struct{}{}
+		go func(j *coverJob) {
+			defer wg.Done()
+			defer func() { <-sem }()
+			vc.Solve(j.o, j.fr.Script, filepath.Join(outDir, "cover"), 10*time.Second, false, []int{0, 1, 2})
+		}(j)
+	}
+	wg.Wait()
+	n := 0
+	for _, j := range jobs {
+		if j.o.Status == "proved" { // the path condition is unsatisfiable: nothing stated there is ever checked
+			n++
+			fmt.Printf("UNREACHABLE %s (%s): %s\n", j.o.Func, j.o.Solver, j.from[0]+fmt.Sprintf(" (+%d more at the same point)", len(j.from)-1))
+		}
+	}
+	fmt.Printf("cover: %d program points, %d unreachable under the assumptions in force\n", len(jobs), n)
+	return 0
+}
